@@ -108,7 +108,28 @@ def round_trip(ctx, obj, kind, steps, rng):
     path_arg = pathlib.Path(path) if rng.random() < 0.3 else path        # str or path-like file names
     try:
         with np.errstate(all="ignore"):
-            hvsrpy.write_hvsr_object_to_file(obj, path_arg, distribution_mc=dmc, distribution_fn=dfn)
+            # the documented signature is (hvsr, fname, distribution_mc="lognormal", distribution_fn="lognormal"): every
+            # way of calling it asks for the same file (an argument equal to its default may also be left out)
+            forms = ["keywords", "both-positional", "mc-positional-fn-keyword", "all-keywords-other-order"]
+            if dfn == "lognormal":
+                forms.append("mc-positional-only")
+            if dmc == "lognormal":
+                forms.append("fn-keyword-only")
+            form = forms[int(rng.integers(0, len(forms)))]
+            info = dict(info, call_form=form)
+            ctx.count("write_call_form:" + form)
+            if form == "keywords":
+                hvsrpy.write_hvsr_object_to_file(obj, path_arg, distribution_mc=dmc, distribution_fn=dfn)
+            elif form == "both-positional":
+                hvsrpy.write_hvsr_object_to_file(obj, path_arg, dmc, dfn)
+            elif form == "mc-positional-fn-keyword":
+                hvsrpy.write_hvsr_object_to_file(obj, path_arg, dmc, distribution_fn=dfn)
+            elif form == "all-keywords-other-order":
+                hvsrpy.write_hvsr_object_to_file(distribution_fn=dfn, fname=path_arg, hvsr=obj, distribution_mc=dmc)
+            elif form == "mc-positional-only":
+                hvsrpy.write_hvsr_object_to_file(obj, path_arg, dmc)
+            else:
+                hvsrpy.write_hvsr_object_to_file(obj, path_arg, distribution_fn=dfn)
         ctx.count("writes")
         dd = snap.diff(before_all, snap.snap(obj))
         ctx.check(not dd, "write-leaves-object-unchanged", "writing changed the object", differences=dd[:5], **info)
